@@ -10,10 +10,10 @@ CHECKS = {
          "CLT for 64 batch means; closed forms evaluated with an independent Lanczos Gamma; configurations restricted to sub-dod >= 0.35 so that f64 cancellation in V has negligible measure (hostile corners belong to C02, C07-C11)", "§5 C01"),
  "C02": ("reference-model monitor: brute-force tropical maxima and exact F coefficients vs returned u, v, jacobian at sector-directed corner points",
          "For 200 (quick) / 4000 (thorough) accepted graphs, all sectors for E<=4/5 (random above) with corner points escalating until the exactly computed condition number of V reaches 1e8: U_tr<=u<=N_T U_tr, (c_min/N_T) V_tr<=v<=C_sum V_tr and jacobian/normalisation inside its graph-only interval.",
-         "generic kinematics; relative slack 1e-3; graphs with exactly one external vertex excluded (known finding F8 under C07)", "§5 C02"),
+         "generic kinematics; domain = exact cancellation ratio (A+|B|)/|V| <= 1e8; each clause evaluated when the rigorous rounding bound of its quantity is below 5% (slack widened by it); graphs with exactly one external vertex excluded (known finding F8 under C07); two-component graphs included", "§5 C02"),
  "C06": ("reference-model monitor with directed workload: exact rational cumulative sums vs the edge read from the debug log; every subgraph x every boundary",
          "Every subset with >=2 edges of 160 (quick) / 2000 (thorough) graphs is driven to; u placed on +-0..3 ulp of every cumulative boundary, inside every interval, at 0, 5e-324, 2^-53, 1-2^-51..1-2^-53. Per graph the subgraph/boundary enumeration is complete.",
-         "within 64 eps of a boundary either neighbour is accepted (the code sums in f64); found and fixed the fall-through panic", "§5 C06"),
+         "within 64 eps of a boundary either neighbour is accepted (the code sums in f64), except on subgraphs whose f64 partial sums are exact (equal-weight topologies), where '>=' is required strictly at, above and below each boundary; found and fixed the fall-through panic", "§5 C06"),
  "C07": ("reference-model monitor: sector formula from exact omegas, brute-force tropical maxima, normalisation identity, from the debug log",
          "All E! sectors for E<=4 (5 in thorough), random sectors above, xi uniform/benign/corner: ln x[s_k]=sum ln xi_j/omega(g_j); u_trop and u_trop*v_trop equal the largest monomials of U and generic F over spanning trees/2-forests; rescaled parameters are a common multiple and normalise U_tr^(D/2) V_tr^dod to 1.",
          "two known findings recorded (rescaling overflow F7, single external vertex F8); points within 1e-9 of a boundary skipped as the property states", "§5 C07"),
@@ -43,7 +43,7 @@ CHECKS = {
          "formats: serde_json with float_roundtrip, CBOR", "§5 C18"),
  "C19": ("instrumented-scalar monitors: #[track_caller] census of to_f64/from_f64 call sites, and 106-bit double-double residuals of algebraic identities",
          "Every narrowing observed while sample() runs with the census scalar must lie inside inverse_gamma_lr (line range parsed from the current source) and be exactly (shape, probability, tolerance); with a double-double scalar seven identities among returned values hold to 2^-90*kappa (observed 2^-84), where any f64 detour leaves 2^-53.",
-         "three scalar types represent 'any type implementing MomTropFloat'", "§5 C19"),
+         "three scalar types represent 'any type implementing MomTropFloat'; monitor 3 skews the scalar's PI() by 2^-20 so that an f64 literal used in place of the user's constant is visible", "§5 C19"),
  "C03": ("reference-model monitor: union-find/rational definitions vs the serialised table, all 2^E subsets per graph",
          "For each of ~2e4 (quick) / 5e5 (thorough) random multigraphs (self-loops, parallel edges, disconnected, arbitrary labels, untouched externals, all mass patterns, D=1..6) every one of the 2^E table entries is compared with definitions evaluated by an independent union-find / exact-rational oracle; per graph the check is exhaustive, over graphs it is sampled.",
          "table index <-> subset bit convention as documented; tolerance 8*E*eps*(sum w + D*E/2) on dod (exact for dyadic weights)", "§5 C03"),
@@ -61,7 +61,7 @@ CHECKS = {
          "Frobenius condition number from exact arithmetic; observed error/bound reported (max ~0.03 on the unchanged tree)", "§5 C15"),
  "C16": ("reference-model monitor: exact rational L_2,1 distance recomputed from the returned inverse; hostile matrices and corner-point samples",
          "2e4 (quick) / 1e6 (thorough) symmetric matrices of twelve families x nine tolerance classes (incl. 0, +inf, NaN, negative) plus samples at xi=0 / 5e-324 / 1e-300 with the test on: Ok => det != 0, and with Some(tol) => no NaN and exact distance <= tol + rounding slack.",
-         "slack covers only the rounding of the code's own norm evaluation; found and fixed two defects (see known_findings.json)", "§5 C16"),
+         "slack covers only the rounding of the code's own norm evaluation; directed tolerances at 0.5x/0.9x the exact distance and between the row-wise and column-wise norms (whose gap is below that slack: unobservable); found and fixed two defects (see known_findings.json)", "§5 C16"),
  "C20": ("reference-model monitor, bit-for-bit, on random hostile f64 inputs (+ Miri in thorough)",
          "Every Vector operation (D=1..8) and every f64 MomTropFloat method is executed on ~1e6 (quick) / 1e8 (thorough) hostile inputs and compared bit for bit with plain IEEE loops / std functions. Exploration: held on the inputs run, no more.",
          "trusts rustc's IEEE semantics for the reference loops; NaN payloads not compared", "§5 C20"),
